@@ -351,10 +351,16 @@ func (s *Server) Snapshot() (raft.FSMSnapshot, error) {
 	var (
 		streams      = s.metadata.GetStreams()
 		groups       = s.metadata.GetConsumerGroups()
-		protoStreams = make([]*proto.Stream, len(streams))
+		protoStreams = make([]*proto.Stream, 0, len(streams))
 		protoGroups  = make([]*proto.ConsumerGroup, len(groups))
 	)
-	for i, stream := range streams {
+	for _, stream := range streams {
+		// A tombstoned stream was deleted by an operation that has been
+		// replayed already; it is only kept around until recovery finishes.
+		// It does not exist at the index of this snapshot.
+		if stream.IsTombstoned() {
+			continue
+		}
 		var (
 			partitions  = stream.GetPartitions()
 			protoStream = &proto.Stream{
@@ -371,7 +377,7 @@ func (s *Server) Snapshot() (raft.FSMSnapshot, error) {
 		for j, partition := range partitions {
 			protoStream.Partitions[j] = partition.Partition
 		}
-		protoStreams[i] = protoStream
+		protoStreams = append(protoStreams, protoStream)
 	}
 	for i, group := range groups {
 		coordinator, epoch := group.GetCoordinator()
